@@ -402,6 +402,7 @@ type c7Exec struct {
 	before                  map[string]*c7Repo
 	normB                   string
 	nRejected, nMergeBranch int
+	marked                  map[string]bool // versions that recorded their own uuid under kv key "whoami"
 }
 
 func (x *c7Exec) uuidOf(i int) string {
@@ -457,7 +458,7 @@ func (c C07) Execute(sc *drv.Scenario, w *drv.World) (*drv.Violation, error) {
 	if _, err := w.Start(); err != nil {
 		return nil, err
 	}
-	x := &c7Exec{w: w, uuids: map[int]string{}, roots: map[int]string{}}
+	x := &c7Exec{w: w, uuids: map[int]string{}, roots: map[int]string{}, marked: map[string]bool{}}
 	x.before = map[string]*c7Repo{}
 	for i, op := range sc.Steps {
 		w.CurStep = i
@@ -528,7 +529,16 @@ func (x *c7Exec) step(op drv.Op) (*drv.Violation, error) {
 			m["branch"] = op.Br
 		}
 		method, url, body = "POST", "/api/node/"+x.uuidOf(op.V)+"/"+action, jsonBody(m)
-		onOK = func(resp []byte) { x.uuids[int(op.N)] = childUUID(resp); x.nMergeBranch++ }
+		onOK = func(resp []byte) {
+			cu := childUUID(resp)
+			x.uuids[int(op.N)] = cu
+			x.nMergeBranch++
+			// every new single-parent version records its own uuid under one key, so that a read through
+			// "<root>:<branch>" shows which node the branch name was resolved to
+			if st, _, err := w.HTTP("POST", "/api/node/"+cu+"/kv/key/whoami", []byte(cu)); err == nil && st == 200 {
+				x.marked[cu] = true
+			}
+		}
 	case "c7tag":
 		var tag string
 		switch op.T {
@@ -736,6 +746,19 @@ func (x *c7Exec) checkBranchAddressing(repos map[string]*c7Repo) (*drv.Violation
 		}
 		if list[0] != qq.head {
 			return c7v("branch-addressing", "branch-versions head differs from graph head", fmt.Sprintf("branch %q of repo %s: graph head %s, branch-versions %v", qq.branch, qq.repo, qq.head, list)), nil
+		}
+		if x.marked[qq.head] {
+			u := "/api/node/" + qq.repo + ":" + qq.branch + "/kv/key/whoami"
+			st, b, err := x.w.HTTP("GET", u, nil)
+			if err != nil {
+				return nil, err
+			}
+			if st == 200 && string(b) != qq.head {
+				return c7v("branch-addressing", "a branch name resolves to a node that is not the head of that branch", fmt.Sprintf("GET %s answers the mark of node %s; the head of branch %q in the graph is %s", u, trunc(b), qq.branch, qq.head)), nil
+			}
+			if st == 200 {
+				x.w.Stats.Probe("branch-leaf-resolution-checked")
+			}
 		}
 		x.w.Stats.Probe("branch-addressing-checked")
 	}
